@@ -16,7 +16,7 @@ CoverNext == pc = "gen" /\ PrintT(<<"TR", ToJson(CaseOut(c))>>) /\ pc' = "done" 
 CoverSpec == CoverInit /\ [][CoverNext]_vars
 
 \* ---- header forms x families (FormCases of P2Bin_MC): every case, replayed
-FormCoverInit == c \in FormCases /\ pc = "gen" /\ idx = 1 /\ m = M0(c.o) /\ s = Blank /\ out = NoOut
+FormCoverInit == c \in FormCases(FormFams) /\ pc = "gen" /\ idx = 1 /\ m = M0(c.o) /\ s = Blank /\ out = NoOut
 FormCoverSpec == FormCoverInit /\ [][CoverNext]_vars
 
 SimDefault == [rs |-> -1, re |-> -1, fill |-> 255, lane |-> "ALL", hdr |-> 0, e |-> -1, sum |-> FALSE,
